@@ -22,10 +22,11 @@ CLAIMS = {
             "Tied to provider/src/write.rs + api glue by byte-for-byte differential correspondence of the output after every call (all ten operations, both levels, sizes crossing header widths and buffer growth) and of the decoded document (outdoc?).",
             TB + "Arbitrary accepted call sequences that are not the serialisation of a tree prefix (e.g. abandoned open containers) are covered by C03's grammar theorems and the correspondence, not by the decode theorem.",
             "Lean 4 theorems over a hand-written model + differential correspondence (line protocol)", "§4 C02"),
-    "C03": ("Theorem C03_reject_noop (every rejected call leaves output bytes, writer position and parent stack unchanged, for every state and every operation) "
-            "over a transcription of state.rs; status of every call, output snapshot and finalisation compared with the real crates on random long sequences, "
-            "all sequences up to length 4 over a 14-letter alphabet, and 32-bit lengths (2^31, 2^32-1) under miri/i686.",
-            TB + "miri (32-bit runs).", "Lean 4 invariant theorem + differential correspondence + exhaustive short sequences", "§4 C03"),
+    "C03": ("Refinement of the write state machine (transcription of state.rs: interleaved key/value counter, parent slot claimed before push, parent stack) to a grammar zipper (Spec/Grammar.lean: path of open containers with completed pairs / waiting key / items, statuses as documented in api/README.md). "
+            "Theorems: C03_call_answered_by_grammar (in EVERY reachable state, any nesting depth and fill level, each of the operations gets exactly the grammar's status and the state afterwards stands for the grammar's document), C03_history_answered_by_grammar (every finite call sequence, continuing after errors and after completion), "
+            "C03_complete_iff_root_closed (finalisation succeeds iff the grammar's document is complete), C03_complete_is_final, C03_reject_noop (a rejected call leaves output bytes, position and parent stack unchanged, for every state and operation). "
+            "Tie: status of every call, output snapshot and finalisation compared with the real crates on random long sequences, all sequences up to length 4 over a 14-letter alphabet, and 32-bit lengths (2^31, 2^32-1) under miri/i686.",
+            TB + "miri (32-bit runs). The model uses unbounded naturals for the counters; the 32-bit wrap-around of the key/value counter (F1) is covered by the miri runs, not by the theorem.", "Lean 4 refinement theorem + differential correspondence + exhaustive short sequences", "§4 C03"),
     "C04": ("Theorems about the instruction lists the current trampoline source emits (regenerated into Gen/Glue.lean on every run by running the real TrampolineCodegen on a fixed family of three guest modules): for all arguments, both memories, every calling context and every provider response, "
             "read_utf8_str moves exactly len bytes from the provider's address to the guest's buffer, get_obj_prop moves the name into the provider's allocation and returns the provider's value, output/intern strings move exactly len bytes to the provider's destination and return status/id, "
             "log copies one or two segments exactly as the five-word plan says, every other import is the provider's function under the underscored name with the same signature. Symbolic execution in a mini-Wasm (generic theorems) + a decidable shape check discharged by the kernel on the regenerated modules. "
